@@ -887,6 +887,8 @@ class Engine:
         # abstract instance of a real class: methods / properties not supplied by the contract are taken from the class source
         cls = obj.__dict__.get('class_ref')
         raw = inspect.getattr_static(cls, attr, None) if cls is not None else None
+        if type(raw).__name__ == 'cached_property' and hasattr(raw, 'func'):
+          return self.call_closure(self.load_function(raw.func), [obj], {})
         if isinstance(raw, property):
           return self.call_closure(self.load_function(raw.fget), [obj], {})
         if isinstance(raw, types.FunctionType):
@@ -1050,6 +1052,9 @@ class Engine:
       if isinstance(op, ast.In):
         return r
       return z3.Not(r) if is_sym(r) else not r
+    for x_, y_, refl in ((a, b, False), (b, a, True)):
+      if hasattr(x_, '_pyvc_compare'):
+        return x_._pyvc_compare(type(op).__name__, y_, refl)
     if isinstance(a, SymSet) or isinstance(b, SymSet):
       raise Unsupported('set comparison')
     if isinstance(a, SymSeq) or isinstance(b, SymSeq):
